@@ -62,6 +62,9 @@ def tok_key(k):
 
 
 def bagkey_sort(k):
+    if isinstance(k, tuple):
+        # components: numbers by value, "nan" last (lexicographic)
+        return (3, 0.0, b"", tuple((1, 0.0) if c == "nan" else (0, float(c)) for c in k))
     if isinstance(k, str):
         if k == "nan":
             return (1, 0.0, b"")
@@ -70,6 +73,11 @@ def bagkey_sort(k):
 
 
 def tok_bagkey(k, rng):
+    if isinstance(k, tuple):
+        out = [3, len(k)]
+        for c in k:
+            out += [1] if c == "nan" else [0] + ftok(c)
+        return out
     if rng == "N":
         if k == "nan":
             return [1]
@@ -88,6 +96,8 @@ def _raise():
 
 def expr_src(e):
     t = e[0]
+    if t == "vec":
+        return "(" + ", ".join("d[%d]" % i for i in e[1:]) + ",)"
     if t == "f":
         return "d[%d]" % e[1]
     if t == "c":
@@ -281,7 +291,7 @@ def tree(h, prune=False):
     if name == "Bag":
         rng = d["range"]
         items = sorted(d["values"].items(), key=lambda kv: bagkey_sort(kv[0]))
-        out = [106, {"S": 0, "N": 1}[rng], OS(qname(h)), F(d["entries"]), len(items)]
+        out = [106, 0 if rng == "S" else 1 if rng == "N" else 2 + int(rng[1:]), OS(qname(h)), F(d["entries"]), len(items)]
         for k, c in items:
             out += [BK(k, rng), F(c)]
         return out
